@@ -95,6 +95,9 @@ pub fn check(t: &Trace<'_>, out: &mut CaseOut) -> bool {
                                     }
                                     nontrivial = true;
                                 } else if pending.len() < advertised(*conn) {
+                                    if pending.len() >= 8 {
+                                        out.count("inbound_qos2_accepted_beyond_eight_pending", 1);
+                                    }
                                     pending.push(pid);
                                     owed.push_back(Owed { kind: 5, pid, reason: 0, written_on: None });
                                     expect.push_back((*conn, *idx));
@@ -106,6 +109,15 @@ pub fn check(t: &Trace<'_>, out: &mut CaseOut) -> bool {
                                 }
                             }
                             _ => {}
+                        }
+                        // a publish that has to be surfaced is returned by the very call that read it
+                        if expect.back() == Some(&(*conn, *idx)) {
+                            if let Some(o) = op {
+                                if matches!(o.outcome, Outcome::Ok(_)) && !w.events[ev..o.ev_ret.max(ev)].iter().any(|e| matches!(e, Ev::Delivered { .. })) && !hostile {
+                                    out.violations.push(viol("C04", "C04/consumed-but-not-delivered", format!("conn {}: {} read the inbound PUBLISH (qos {}, id {:?}) within the window the client advertised ({} of {} slots taken) and returned {:?} without surfacing it", conn, o.kind, qos, pid, pending.len().saturating_sub(1), advertised(*conn), o.outcome)));
+                                    broken = true;
+                                }
+                            }
                         }
                         // arena state at the time the ack had to be produced
                         if let Some(s) = op.and_then(|o| o.snap_before.as_ref()) {
